@@ -301,7 +301,21 @@ def run_child(cases, scratch):
     lines = [l for l in p.stdout.splitlines() if l.startswith("{")]
     if len(lines) != len(cases):
         raise RuntimeError(f"child returned {len(lines)} results for {len(cases)} cases: {p.stderr[-800:]}")
-    return [json.loads(l) for l in lines]
+    return [norm_loads(json.loads(l)) for l in lines]
+
+
+def norm_loads(real):
+    """the bytes the stock unpickler EXECUTES of each buffer it was handed: the buffer's first pickle"""
+    out = []
+    for h in real.get("loads") or []:
+        try:
+            fp = first_pickle(bytes.fromhex(h))
+            out.append(fp.hex() if fp is not None else h)
+        except ValueError:
+            out.append(h)
+    real["loads_raw"] = real.get("loads")
+    real["loads"] = out
+    return real
 
 
 def run_children(cases, scratch, workers=14):
@@ -536,6 +550,12 @@ def main(tier, seed):
                        not mism and declined * 10 <= len(cases),
                        json.dumps([{k: v for k, v in m.items() if k != 'case'} for m in mism[:4]]))
             bad += mism
+        # the property itself, model-free, on every observed load (also the violation search below)
+        orc = [(c, oracle(c, r)) for c, r in zip(cases, reals)]
+        orc_bad = [(c, w) for c, w in orc if w]
+        chk.oblige(f"property oracle (model-free) holds on all {len(cases)} observed loads", not orc_bad,
+                   json.dumps([{"why": w, "label": c["label"], "arming": c["arming"], "thr": c["thr"],
+                                "kind": c["kind"]} for c, w in orc_bad[:4]]))
         for c, r in zip(cases, reals):
             chk.count()
             v = (r.get("ref") or {}).get("verdict") or ["none", None]
@@ -549,7 +569,8 @@ def main(tier, seed):
         picked = set()
         for c, r in zip(cases, reals):
             key = (r["r"], c["arming"].split("_")[0])
-            if key not in picked and len(picked) < 6 and c["kind"].startswith("swap"):
+            if key not in picked and len(picked) < 6 and c["kind"].startswith("swap") and \
+                    not c["label"].startswith("ladder"):
                 picked.add(key)
                 chk.sample(summarise(c, r))
 
@@ -559,16 +580,20 @@ def main(tier, seed):
                     a, b = m["pair"]
                     if (m["real"] == "T") != (DOC.index(a) <= DOC.index(b)):
                         return {"oracle": f"Severity.{a} <= Severity.{b} evaluates to {m['real']}", **m}
-            by_id = {c["id"]: r for c, r in zip(cases, reals)}
-            for m in bad:
-                if m["kind"] == "load":
-                    why = oracle(m["case"], by_id[m["case"]["id"]])
-                    if why:
-                        return public_case(m["case"], why)
-            for c, r in zip(cases, reals):
-                why = oracle(c, r)
-                if why:
-                    return public_case(c, why)
+            # disagreeing inputs first, then the whole corpus; among failing cases prefer the most telling
+            # one (something ran that must not have) over a merely wrong exception / value
+            first = [m["case"]["id"] for m in bad if m["kind"] == "load"]
+            order = {i: n for n, i in enumerate(first)}
+            failing = [(c, w) for c, w in orc if w]
+
+            def prio(cw):
+                c, w = cw
+                grave = 0 if ("something ran" in w or "returned an object although" in w
+                              or "after the analysis pass" in w or "not the bytes analysed" in w) else 1
+                return (grave, order.get(c["id"], len(cases)), c["id"])
+            if failing:
+                c, w = min(failing, key=prio)
+                return public_case(c, w)
             return None
 
         report_broken_obligations(chk, search)
